@@ -178,6 +178,7 @@ func init() {
 		c.R.Set("workspaces", len(wss))
 		c.R.Set("query_invocations", queries)
 		c20EditPart(c, grog, base)
+		c20SkewedOutputs(c, grog, base)
 	}
 }
 
@@ -375,6 +376,50 @@ func c20Workspace(c *Ctx, grog, base string, wi int, ns []qnode) int64 {
 		}
 	}
 	return n
+}
+
+// c20SkewedOutputs: the same oracle on a workspace in which an unrelated target has two outputs of very different
+// size (the small, alphabetically later one is stored first): whatever order its outputs were recorded in, editing
+// another target's input must not re-execute it.
+func c20SkewedOutputs(c *Ctx, grog, base string) {
+	box, err := hist.NewBox(base)
+	if err != nil {
+		c.R.BrokenCheck("scratch: %v", err)
+		return
+	}
+	defer box.Remove()
+	src := &hist.Source{Files: map[string]hist.File{"gen/gen.in": {Content: "g"}, "other/lib.in": {Content: "l1"}}}
+	src.Targets = append(src.Targets,
+		hist.Target{Pkg: "gen", Name: "bundle", Inputs: []string{"gen.in"}, Outputs: []string{"a_big.bin", "b_small.txt"}, Command: traceStart + "\nhead -c 33554432 /dev/zero > a_big.bin\nprintf small > b_small.txt"},
+		hist.Target{Pkg: "other", Name: "lib", Inputs: []string{"lib.in"}, Outputs: []string{"lib.txt"}, Command: traceStart + "\ncat lib.in > lib.txt"},
+		hist.Target{Pkg: "other", Name: "app", Deps: []string{":lib"}, Outputs: []string{"app.txt"}, Command: traceStart + "\ncat lib.txt > app.txt"})
+	src.Materialize(box.WS(), nil)
+	if rr := box.Run(grog, hist.RunOpts{Args: []string{"build", "//..."}}); rr.Exit != 0 {
+		c.R.BrokenCheck("size-skewed workspace: initial build failed: %s", tail(rr.Output, 300))
+		return
+	}
+	for round := 1; round <= 3; round++ {
+		f := "other/lib.in"
+		owners := queryLines(box.Run(grog, hist.RunOpts{Args: []string{"owners", f}}).Output)
+		allowed := setOf(owners)
+		for _, o := range owners {
+			for _, l := range queryLines(box.Run(grog, hist.RunOpts{Args: []string{"rdeps", "-t", o}}).Output) {
+				allowed[l] = true
+			}
+		}
+		s2 := src.Clone()
+		s2.Files[f] = hist.File{Content: fmt.Sprintf("l%d", round+1)}
+		s2.Materialize(box.WS(), src)
+		src = s2
+		r2 := box.Run(grog, hist.RunOpts{Args: []string{"build", "//..."}})
+		for _, e := range r2.Started() {
+			if !allowed[e] {
+				c.R.Violate(vc.Violation{Sig: "C20:edit-executes-target-outside-owners-and-rdeps", Detail: fmt.Sprintf("size-skewed outputs, round %d: after editing %s the build executed %s, but owners(%s)=%v and their transitive rdeps are %v: %s", round, f, e, f, owners, sortedKeys(allowed), tail(r2.Output, 300)), Replay: map[string]any{"file": f, "executed": r2.Started(), "workspace": "//gen:bundle with outputs a_big.bin (32 MiB) and b_small.txt; //other:lib <- //other:app"}})
+			}
+		}
+		c.R.AddCounts(3, 1, 3, 3)
+		c.R.Nontrivial(fmt.Sprintf("skewed|%d", round))
+	}
 }
 
 // c20EditPart: after editing file f, executed ⊆ owners(f) ∪ rdeps*(owners(f)) as printed by the binary.
